@@ -47,6 +47,15 @@ def cases(fn: ast.FunctionDef, rename: Optional[Dict[str, str]] = None, limit: i
                 return
             if isinstance(st, ast.Raise):
                 return
+            if isinstance(st, ast.Assign) and len(st.targets) == 1 and isinstance(st.targets[0], ast.Name) and isinstance(st.value, ast.IfExp):
+                # x = A if C else B   is   if C: x = A  else: x = B
+                a_ = ast.copy_location(ast.Assign(targets=st.targets, value=st.value.body), st)
+                b_ = ast.copy_location(ast.Assign(targets=st.targets, value=st.value.orelse), st)
+                tail = stmts[i + 1:]
+                f = norm.nnf(sub(st.value.test, env))
+                run([a_] + tail, env, conds | frozenset(norm.atoms_true(f)), rest)
+                run([b_] + tail, env, conds | frozenset(norm.atoms_true(norm.neg(f))), rest)
+                return
             if isinstance(st, ast.Assign) and len(st.targets) == 1 and isinstance(st.targets[0], ast.Name):
                 env = dict(env)
                 env[st.targets[0].id] = norm.subst(st.value, env)
